@@ -48,7 +48,7 @@ ASSUMPTIONS = [
 ]
 REAL = ["atomic_service.can_run_atomic_service / calculate_time_slot / is_runner_in_time_slot", "BaseOrchestrator.should_run_atomic_service", "Mem/SQLite runner heartbeat tables and active-runner queries"]
 STUBBED = ["clock (frozen virtual instants)"]
-PROBES = ["margin_fallback_branch", "boundary_instant", "zero_margin", "large_epoch"]
+PROBES = ["margin_fallback_branch", "boundary_instant", "zero_margin", "large_epoch", "execution_history_recorded"]
 
 
 def plan(tier: str) -> list[dict]:
@@ -104,6 +104,19 @@ def run(seed: int, params: dict, replay: dict | None = None) -> dict:
             sim.advance(0.5)
             for app in env.apps.values():
                 app.orchestrator.register_runner_heartbeats([c.runner_id], can_run_atomic_service=True)
+        if rng.random() < 0.5:
+            # execution history: some runners report how long their last service run took (short, about a slot
+            # minus the margin, a whole slot, longer); the windows must not depend on it
+            from datetime import UTC, datetime
+
+            slot_s = float(cycle) / n
+            for c in ctxs:
+                if rng.random() < 0.7:
+                    dur = rng.choice([0.01, max(0.0, slot_s - float(margin)) * 1.05 + 0.01, slot_s * 0.999, slot_s, slot_s * 1.7])
+                    t0_ = sim.now - dur - 1.0
+                    for app in env.apps.values():
+                        app.orchestrator.record_atomic_service_execution(c.runner_id, datetime.fromtimestamp(t0_, UTC), datetime.fromtimestamp(t0_ + dur, UTC))
+                    stats["probe.execution_history_recorded"] = stats.get("probe.execution_history_recorded", 0) + 1
         windows = [model_window(i, n, cycle, margin) for i in range(n)]
         base = (int(sim.now / float(cycle)) + 2) * float(cycle)
         instants: list[float] = []
